@@ -48,27 +48,25 @@ example : Valid ⟨3, fun i => i * i, -1, 4⟩ ∧ Nondegenerate ⟨3, fun i => 
   rcases this with rfl | rfl <;> norm_num
 
 /-- `cell_sizes_vecs[i]` is the width of cell `i` (difference of its boundaries), for every
-partition with at least two nodes.  (No validity needed: pure index arithmetic.) -/
-theorem C14.cell_size_is_width (P : Part1) (hn : 2 ≤ P.n) (i : Nat) (hi : i < P.n) :
+number of nodes including the single-node axis.  (No validity needed: pure index arithmetic.) -/
+theorem C14.cell_size_is_width (P : Part1) (hn : 1 ≤ P.n) (i : Nat) (hi : i < P.n) :
     P.cellSize i = P.bdry (i + 1) - P.bdry i :=
   cell_size_eq_bdry_diff P hn i hi
 
-/- FULL STATEMENT (does not hold for the code, see `C14.cell_sizes_sum_fails_len1`):
-   `∀ P, Valid P → sumTo P.cellSize P.n = P.hi - P.lo`.
-   Missing: the length-1 axis, where `cell_sizes_vecs` is `[0.0]` by construction. -/
-/-- Cell sizes sum to the extent `max_pt - min_pt` (telescoping), for every `n ≥ 2`. -/
-theorem C14.cell_sizes_sum_partial (P : Part1) (hn : 2 ≤ P.n) :
+/-- Cell sizes sum to the extent `max_pt - min_pt` (telescoping), for every `n ≥ 1`. -/
+theorem C14.cell_sizes_sum (P : Part1) (hn : 1 ≤ P.n) :
     sumTo P.cellSize P.n = P.hi - P.lo :=
-  cell_sizes_sum_of_two_le P hn
+  cell_sizes_sum_all P hn
 
-/-- Finding C14-F2 on the model: a valid one-node partition of `[0, 1]` whose cell sizes do not
-sum to the extent (`cell_sizes_vecs = [0.0]`, extent `1`). -/
-theorem C14.cell_sizes_sum_fails_len1 :
-    ∃ P : Part1, Valid P ∧ P.n = 1 ∧ sumTo P.cellSize P.n ≠ P.hi - P.lo :=
-  OdlModel.Partition.cell_sizes_sum_fails_len1
+/-- Sensitivity (the defect C14-F2, repaired in /repo): with the OLD `cell_sizes_vecs`
+(`[0.0]` on a single-node axis) a valid one-node partition of `[0, 1]` has cell sizes that do
+not sum to the extent. -/
+theorem C14.cell_sizes_old_sum_fails_len1 :
+    ∃ P : Part1, Valid P ∧ P.n = 1 ∧ sumTo P.cellSizeOld P.n ≠ P.hi - P.lo :=
+  OdlModel.Partition.cell_sizes_old_sum_fails_len1
 
 example : sumTo (Part1.ofList [0, 1, 3] (-1/2) 4).cellSize 3 = 4 - (-1/2) :=
-  C14.cell_sizes_sum_partial (Part1.ofList [0, 1, 3] (-1/2) 4) (by decide)
+  C14.cell_sizes_sum (Part1.ofList [0, 1, 3] (-1/2) 4) (by decide)
 
 /-- Boundary cell fractions: the part of the first/last "natural" cell (centred at the node,
 as wide as the neighbouring stride) that lies inside the set is `1/2 + distance / stride`:
@@ -259,24 +257,19 @@ example : completeAxis Tol.numpy (1/100000) (some 0) none (some 4) (some (1/2)) 
   (C14.uniform_spec_agree Tol.numpy (1/100000) (by norm_num [Tol.numpy]) (by norm_num [Tol.numpy])
     (by norm_num) 0 (7/4) (1/2) 4 true false (by norm_num) (by norm_num [halfCount])).2.1
 
-/- FULL STATEMENT of "the ways of specifying a uniform partition agree" at the level of
-   `uniformPartition` would quantify over every way of passing `nodes_on_bdry`
-   (`Flags.global`, `Flags.perAxis`, `Flags.flat`).  It holds for `global` and `perAxis`
-   (`loopFlags = gridFlags`, next theorem) and fails for `flat` (finding C14-F1). -/
-/-- For the global and the per-axis forms of `nodes_on_bdry` the parameter-completion loop and
-the grid construction see the same flags. -/
-theorem C14.uniform_flags_agree_partial (f : Flags) (ndim : Nat)
-    (hf : ∀ l r, f ≠ Flags.flat l r) : f.loopFlags ndim true = f.gridFlags ndim := by
-  cases f with
-  | global b => rfl
-  | flat l r => exact absurd rfl (hf l r)
-  | perAxis fl => rfl
+/-- For every way of passing `nodes_on_bdry` (global bool, per-axis list, 1-d flat pair) the
+parameter-completion loop and the grid construction see the same per-side flags; together
+with `C14.uniform_spec_agree` (applied axis by axis): all consistent ways of specifying a
+uniform partition give the same partition. -/
+theorem C14.uniform_flags_agree (f : Flags) (ndim : Nat) : f.loopFlags ndim = f.gridFlags ndim := by
+  cases f <;> rfl
 
-/-- Finding C14-F1 on the model: with the 1-d flat form `nodes_on_bdry=(l, r)`, `l ≠ r`, the
-completion loop uses `(l, l)` while the grid is built with `(l, r)`; the completed upper limit
-differs from the consistent one by half a cell for every `n` and every side `d ≠ 0`. -/
-theorem C14.uniform_flat_flags_fails (l r : Bool) (hlr : l ≠ r) (lo d : Rat) (n : Int) (hd : d ≠ 0) :
-    (Flags.flat l r).loopFlags 1 true = some [(l, l)] ∧
+/-- Sensitivity (the defect C14-F1, repaired in /repo): with the OLD normalisation of the 1-d
+flat form `nodes_on_bdry=(l, r)`, `l ≠ r`, the completion loop used `(l, l)` while the grid was
+built with `(l, r)`; the completed upper limit then differs from the consistent one by half a
+cell for every `n` and every side `d ≠ 0`. -/
+theorem C14.uniform_flat_flags_old_fails (l r : Bool) (hlr : l ≠ r) (lo d : Rat) (n : Int) (hd : d ≠ 0) :
+    (Flags.flat l r).loopFlagsOld 1 = some [(l, l)] ∧
     (Flags.flat l r).gridFlags 1 = some [(l, r)] ∧
     ∀ t eps, completeAxis t eps (some lo) none (some n) (some d) l l ≠
              completeAxis t eps (some lo) none (some n) (some d) l r := by
